@@ -59,6 +59,8 @@ type TermTable struct {
 	ufList []string
 	axioms []*Term // codec axiom instances (always asserted)
 	validStr map[int]string // string vars that are valid encodings by construction ("map")
+	pins     map[string]string // replay: pinned model values by variable name
+	pinned   []*Term
 }
 
 func NewTermTable() *TermTable {
@@ -95,6 +97,11 @@ func (tt *TermTable) Var(prefix string, sort Sort) *Term {
 	tt.nvar++
 	t := tt.mk("var", sort, name, 0)
 	tt.vars = append(tt.vars, t)
+	if v, ok := tt.pins[name]; ok {
+		if c := tt.parseValue(v, sort); c != nil {
+			tt.pinned = append(tt.pinned, tt.Eq(t, c))
+		}
+	}
 	return t
 }
 
@@ -776,3 +783,45 @@ func collectVars(ts ...*Term) []*Term {
 }
 
 var _ = big.NewInt
+
+// parseValue reads an SMT-LIB value of the given sort (as printed by get-value).
+func (tt *TermTable) parseValue(v string, sort Sort) *Term {
+	switch {
+	case sort == SBool:
+		if v == "true" {
+			return tt.Bool(true)
+		}
+		if v == "false" {
+			return tt.Bool(false)
+		}
+	case sort == SString:
+		if strings.HasPrefix(v, "\"") {
+			return tt.Str(decodeSMTString(v))
+		}
+	case sort == SInt:
+		v = strings.TrimSpace(strings.Trim(v, "()"))
+		neg := false
+		if strings.HasPrefix(v, "-") {
+			neg = true
+			v = strings.TrimSpace(v[1:])
+		}
+		if n, err := strconv.ParseInt(v, 10, 64); err == nil {
+			if neg {
+				n = -n
+			}
+			return tt.Int(n)
+		}
+	case sort.Width() > 0:
+		if strings.HasPrefix(v, "#x") {
+			if n, err := strconv.ParseUint(v[2:], 16, 64); err == nil {
+				return tt.BV(n, sort.Width())
+			}
+		}
+		if strings.HasPrefix(v, "#b") {
+			if n, err := strconv.ParseUint(v[2:], 2, 64); err == nil {
+				return tt.BV(n, sort.Width())
+			}
+		}
+	}
+	return nil
+}
